@@ -151,6 +151,8 @@ func (b *sbuild) build(n *pnode, owner string) stream.Stream[int] {
 		return &sepRuns{inner: stream.Runs(kid(0, "Runs"), func(a, c int) bool { return coarseEq(n.n, a, c) })}
 	case "runsflat":
 		return stream.Flatten(stream.Runs(kid(0, "Runs"), func(a, c int) bool { return coarseEq(n.n, a, c) }))
+	case "runshead":
+		return &sepRuns{inner: stream.Runs(kid(0, "Runs"), func(a, c int) bool { return coarseEq(n.n, a, c) }), take: n.m, limited: true}
 	case "flatmap":
 		cnt := 0
 		return stream.Flatten(stream.Map(kid(0, "Map"), func(ctx context.Context, x int) (stream.Stream[int], error) {
@@ -275,11 +277,25 @@ func (s *sepChunks) Close() { s.inner.Close() }
 
 // sepRuns drains each run, emitting sepRun after it.
 type sepRuns struct {
-	inner stream.Stream[stream.Stream[int]]
-	cur   stream.Stream[int]
+	inner   stream.Stream[stream.Stream[int]]
+	cur     stream.Stream[int]
+	limited bool // read at most `take` items of every run, then advance the outer stream
+	take    int
+	taken   int
+	calls   int
 }
 
+// errRunaway stops a library loop that would never end (a stream that keeps producing for ever):
+// the harness adaptors refuse to hand out more than a generous number of items.
+var errRunaway = NewErr("harness: output limit exceeded (the stream does not terminate)")
+
+const runawayLimit = 3000
+
 func (s *sepRuns) Next(ctx context.Context) (int, error) {
+	s.calls++
+	if s.calls > runawayLimit {
+		return 0, errRunaway
+	}
 	for {
 		if s.cur == nil {
 			c, err := s.inner.Next(ctx)
@@ -287,8 +303,17 @@ func (s *sepRuns) Next(ctx context.Context) (int, error) {
 				return 0, err
 			}
 			s.cur = c
+			s.taken = 0
+		}
+		if s.limited && s.taken >= s.take {
+			// stop reading this run; the outer stream skips the rest of it when it is advanced
+			s.cur = nil
+			return sepRun, nil
 		}
 		v, err := s.cur.Next(ctx)
+		if err == nil {
+			s.taken++
+		}
 		if err == stream.End {
 			s.cur.Close()
 			s.cur = nil
@@ -402,6 +427,8 @@ func (b *ibuild) build(n *pnode) iterator.Iterator[int] {
 		return &isepRuns{inner: iterator.Runs(kid(0), func(a, c int) bool { return coarseEq(n.n, a, c) })}
 	case "runsflat":
 		return iterator.Flatten(iterator.Runs(kid(0), func(a, c int) bool { return coarseEq(n.n, a, c) }))
+	case "runshead":
+		return &isepRuns{inner: iterator.Runs(kid(0), func(a, c int) bool { return coarseEq(n.n, a, c) }), take: n.m, limited: true}
 	case "flatmap":
 		return iterator.Flatten(iterator.Map(kid(0), func(x int) iterator.Iterator[int] { return iterator.Slice(flatItems(x, n.n)) }))
 	case "join":
@@ -433,11 +460,21 @@ func (s *isepChunks) Next() (int, bool) {
 }
 
 type isepRuns struct {
-	inner iterator.Iterator[iterator.Iterator[int]]
-	cur   iterator.Iterator[int]
+	inner   iterator.Iterator[iterator.Iterator[int]]
+	cur     iterator.Iterator[int]
+	limited bool
+	take    int
+	taken   int
+	calls   int
+	Runaway bool
 }
 
 func (s *isepRuns) Next() (int, bool) {
+	s.calls++
+	if s.calls > runawayLimit {
+		s.Runaway = true
+		return 0, false
+	}
 	for {
 		if s.cur == nil {
 			c, ok := s.inner.Next()
@@ -445,12 +482,18 @@ func (s *isepRuns) Next() (int, bool) {
 				return 0, false
 			}
 			s.cur = c
+			s.taken = 0
+		}
+		if s.limited && s.taken >= s.take {
+			s.cur = nil
+			return sepRun, true
 		}
 		v, ok := s.cur.Next()
 		if !ok {
 			s.cur = nil
 			return sepRun, true
 		}
+		s.taken++
 		return v, true
 	}
 }
